@@ -64,6 +64,16 @@ def build_pres_context_def_list(context_def_list):
     )
 
 
+def _max_length_sub_item(user_data):
+    """Finds Maximum Length sub-item (it is not necessarily the first one)
+
+    :param user_data: list of User Information sub-items
+    :raises IndexError: if there is no such sub-item
+    """
+    return [item for item in user_data
+            if isinstance(item, userdataitems.MaximumLengthSubItem)][0]
+
+
 def _negotiated_max_pdu_length(local, remote):
     """Limit for outgoing P-DATA-TF PDUs: the smaller of the two values, where zero means
     'no limit' and restricts nothing."""
@@ -208,7 +218,7 @@ class AssociationAcceptor(socketserver.StreamRequestHandler, Association):
         of the request sends association response based on
         acceptable_pr_contexts"""
         user_items = assoc_req.variable_items[-1]
-        max_pdu_sub_item = user_items.user_data[0]
+        max_pdu_sub_item = _max_length_sub_item(user_items.user_data)
         self.max_pdu_length = _negotiated_max_pdu_length(
             self.max_pdu_length, max_pdu_sub_item.maximum_length_received)
         max_pdu_sub_item.maximum_length_received = self.max_pdu_length
@@ -398,7 +408,7 @@ class AssociationRequester(Association):
         # Get maximum pdu length from answer
         user_data = response.variable_items[-1].user_data
         try:
-            max_pdu_length = user_data[0].maximum_length_received
+            max_pdu_length = _max_length_sub_item(user_data).maximum_length_received
             self.max_pdu_length = _negotiated_max_pdu_length(self.max_pdu_length, max_pdu_length)
         except IndexError:
             pass
